@@ -345,6 +345,10 @@ def _mentions_tree(f, e, depth=0):
                 src = a.iter if isinstance(a, (ast.For, ast.AsyncFor)) else getattr(a, "value", None)
                 if src is not None and src is not e and _mentions_tree(f, src, depth + 1):
                     return True
+                # chosen under a test on the tree relation:  if s.parent == node: child = s
+                for anc in ancestors(f, a):
+                    if isinstance(anc, ast.If) and any(isinstance(y, ast.Attribute) and y.attr in TREE_ATTRS for y in ast.walk(anc.test)):
+                        return True
             for comp in own_nodes(f.node):
                 if isinstance(comp, (ast.ListComp, ast.GeneratorExp, ast.SetComp, ast.DictComp)):
                     for gen in comp.generators:
